@@ -7,5 +7,8 @@ LinkPkts == [link : {1, 2}, fee : {4101}, size : Sizes]
 LinkFilters == {NoFilter} \cup {[k |-> "link", v |-> n] : n \in 1..3}
 \* FEE-id / stave configurations: FEE 4101 (L1_5) arrives over both links, link 1 also carries 4357 (L1_5 again, other FEE-id bits), link 2 also 8197 (L2_5)
 FeePkts == {p \in [link : {1, 2}, fee : {4101, 4357, 8197}, size : Sizes] : << p.link, p.fee >> \in {<<1, 4101>>, <<1, 4357>>, <<2, 4101>>, <<2, 8197>>}}
+\* batch-boundary configurations: one packet kind, as many packets as the reader's batch (100), one more, two batches, ...; complete or ending in the last packet
+BatchPkts == {[link |-> 1, fee |-> 4101, size |-> 80]}
+BatchFilters == {NoFilter, [k |-> "link", v |-> 1], [k |-> "link", v |-> 2]}
 FeeFilters == {[k |-> "fee", v |-> f] : f \in {4101, 4357, 8197, 4102}} \cup {[k |-> "stave", v |-> x] : x \in {69, 133, 197}}
 ===============================================================================
